@@ -16,6 +16,9 @@ class Fail(Exception):
     pass
 
 
+NOADDR = -(1 << 28)      # an address that does not resolve: no offset brings it back into range
+
+
 def addr_text(al, delim_escape):
     out = []
     for sep, t in al:
@@ -23,7 +26,7 @@ def addr_text(al, delim_escape):
         b = t["b"]
         if b[0] == "n":
             out.append(str(b[1]))
-        elif b[0] in (".", "$"):
+        elif b[0] in (".", "$", "%"):
             out.append(b[0])
         elif b[0] == "m":
             out.append("'" + b[1])
@@ -96,6 +99,8 @@ class Ed:
                 self.marks[m] = p + nins - ndel
             elif p >= beg + nins:
                 self.marks[m] = beg + nins - 1
+                if self.marks[m] < 0:
+                    del self.marks[m]
         self.touched = True
 
     @staticmethod
@@ -143,7 +148,7 @@ class Ed:
             n = len(self.ln) - 1
         elif b[0] == "m":
             if b[1] not in self.marks:
-                raise Fail("mark not set")
+                return NOADDR
             n = self.marks[b[1]]
         elif b[0] in ("/", "?"):
             d = 1 if b[0] == "/" else -1
@@ -151,8 +156,9 @@ class Ed:
             while 0 <= r < len(self.ln) and not self.matches(b[1], self.txt[self.ln[r]]):
                 r += d
             if not (0 <= r < len(self.ln)):
-                raise Fail("pattern not found")
-            n = r
+                n = NOADDR
+            else:
+                n = r
         for o in t["o"]:
             n += _atoi(o)
         return n
@@ -167,12 +173,12 @@ class Ed:
             return self.xrow, (self.xrow if self.xrow == n else self.xrow + 1)
         beg = end = None
         for i, (sep, t) in enumerate(al):
-            if sep == ";":
+            if sep == ";" and 0 < end <= n:
                 self.xrow = end - 1
             end0 = end
             end = self.lineno(t) + 1
             beg = end - 1 if i == 0 else end0 - 1
-        if beg < 0 and end == 0:
+        if beg == -1 and end == 0:
             beg = 0
         if beg < 0 or beg >= n:
             raise FailRegion(beg, end)
@@ -274,7 +280,10 @@ class Ed:
         if k == "k":
             beg, end = self.region(al)
             if c["m"].islower() and c["m"].isascii() and len(c["m"]) == 1:
-                self.marks[c["m"]] = end - 1
+                if end - 1 >= 0:
+                    self.marks[c["m"]] = end - 1
+                else:
+                    self.marks.pop(c["m"], None)      # position -1 means "not set"
             return 0
         if k == "rs":
             self.reg_put(c["r"], "".join(l + "\n" for l in c["lines"]), 1)
